@@ -43,7 +43,7 @@ class C09(Cfg):
 
     def streams(self, tier, seed, work, dv):
         res = []
-        plan = [("C09", 160, 22)] if tier == "quick" else [("C09", 2500, 26), ("C03", 200, 22)]
+        plan = [("C09", 160, 22)] if tier == "quick" else [("C09", 4000, 26), ("C03", 300, 22)]
         for prop, n, ln in plan:
             path = os.path.join(work, "hist_%s.ops" % prop)
             lib.sh([dv, "gen", "--prop", prop, "--seed", str(seed), "--n", str(n), "--len", str(ln), "--out", path], check=True)
